@@ -131,6 +131,8 @@ def check_chord(ctx, spec):
         x, y = spec_items(spec[1]), spec_items(spec[2])
         if len(R.poly_items(x, y)) < len(x) + len(y):
             labels.append("poly:duplicate-skipped")
+        if spec[2][0] == "poly":
+            labels.append("poly:three-or-more-parts")
     if spec[0] == "plain" and spec[2] != spec[3]:
         labels.append("alias")
     ctx.note_case(spec[0] != "nc", labels)
@@ -268,7 +270,11 @@ def _st_poly(shs):
             letter, pclass = R.item_key(R.items(y[1], y[3])[-1])
             x = ["plain", T.canonical(letter, pclass), x[2], x[3]]
         return ["poly", x, y]
-    return st.builds(mk, _st_plain(shs), _st_plain(shs), st.booleans())
+    two = st.builds(mk, _st_plain(shs), _st_plain(shs), st.booleans())
+    # 'X|Y|Z' is X on top of the polychord 'Y|Z' (the first '|' splits); also four parts
+    three = st.builds(lambda x, yz: ["poly", x, yz], _st_plain(shs), two)
+    four = st.builds(lambda x, yzw: ["poly", x, yzw], _st_plain(shs), three)
+    return st.one_of(two, two, three, four)
 
 
 def sub_slash(ctx, shard, n):
